@@ -2069,6 +2069,66 @@ Proof.
   exists q. split; [exact E1|]. split; [|now apply invi_agrees]. rewrite (export_explicit_imp _ E2), E3. reflexivity.
 Qed.
 
+(** * Instances of a profile class are independent *)
+
+Lemma start_inv n start : 1 <= start -> Inv (mkP start start n [] [] []) /\ tight_p (mkP start start n [] [] []).
+Proof.
+  intros H. split; [|reflexivity]. constructor; [constructor|..]; cbn [p_start p_next p_fresh p_svcs p_db p_cmap gchain all_entries all_cmap flat_map].
+  - exact H.
+  - lia.
+  - reflexivity.
+  - split; constructor.
+  - constructor.
+  - reflexivity.
+Qed.
+
+Lemma add_service_ids_ge n p s0 :
+  n <= p_fresh p -> Forall (fun x => n <= x) (all_ids (p_svcs p)) ->
+  n <= p_fresh (add_service p s0) /\ Forall (fun x => n <= x) (all_ids (p_svcs (add_service p s0))).
+Proof.
+  intros H1 H2. rewrite add_service_eq. cbn [p_fresh p_svcs]. split; [lia|].
+  rewrite all_ids_app. apply Forall_app. split; [exact H2|]. cbn [all_ids flat_map]. rewrite app_nil_r, svc_ids_placed.
+  apply Forall_forall. intros x Hx. apply Nseq_In in Hx. lia.
+Qed.
+
+Lemma build_from_inv n start sds :
+  1 <= start ->
+  let q := build_from n start sds in
+  Inv q /\ tight_p q /\ p_start q = start /\ n <= p_fresh q /\ Forall (fun x => n <= x) (all_ids (p_svcs q)).
+Proof.
+  intros H. cbv zeta. unfold build_from.
+  assert (G : forall p, Inv p /\ tight_p p /\ n <= p_fresh p /\ Forall (fun x => n <= x) (all_ids (p_svcs p)) ->
+              let q := fold_left (fun p sd => add_service p (svc_build sd (svc_template sd))) sds p in
+              Inv q /\ tight_p q /\ p_start q = p_start p /\ n <= p_fresh q /\ Forall (fun x => n <= x) (all_ids (p_svcs q))).
+  { induction sds as [|sd r IH]; intros p (H1 & H2 & H3 & H4); cbn [fold_left]; [auto|].
+    pose proof (svc_build_handle sd (svc_template sd)) as H0.
+    destruct (add_service_ids_ge n p (svc_build sd (svc_template sd)) H3 H4) as [H5 H6].
+    destruct (IH (add_service p (svc_build sd (svc_template sd)))) as (K1 & K2 & K3 & K4 & K5).
+    - split; [now apply add_service_inv|]. split; [now apply add_service_tight|]. split; assumption.
+    - split; [exact K1|split; [exact K2|split; [rewrite K3; reflexivity|split; assumption]]]. }
+  destruct (start_inv n start H) as [I0 T0].
+  destruct (G (mkP start start n [] [] [])) as (K1 & K2 & K3 & K4 & K5).
+  - split; [exact I0|]. split; [exact T0|]. split; [cbn; lia|constructor].
+  - auto.
+Qed.
+
+(** A second instance (of the same or of another class), built from the identities the first
+    one left unused, has the full layout at its own start handle and shares no object with
+    the first instance: the references held by the two attribute databases are disjoint. *)
+Theorem instances_independent start1 start2 sds1 sds2 :
+  1 <= start1 -> 1 <= start2 ->
+  let p1 := build start1 sds1 in
+  let p2 := build_from (p_fresh p1) start2 sds2 in
+  layout false p1 /\ layout false p2 /\ p_start p2 = start2
+  /\ (forall x, In x (all_ids (p_svcs p1)) -> ~ In x (all_ids (p_svcs p2))).
+Proof.
+  intros H1 H2. cbv zeta. destruct (build_inv start1 sds1 H1) as (I1 & T1 & _).
+  destruct (build_from_inv (p_fresh (build start1 sds1)) start2 sds2 H2) as (I2 & T2 & S2 & _ & G2).
+  split; [now apply invs_layout|]. split; [now apply invs_layout|]. split; [exact S2|].
+  intros x Hx1 Hx2. destruct I1 as [[_ _ _ [_ Hlt]] _ _]. rewrite Forall_forall in Hlt, G2.
+  apply Hlt in Hx1. apply G2 in Hx2. lia.
+Qed.
+
 (** * The statements of Property.v *)
 
 Theorem build_layout start sds : 1 <= start -> layout false (build start sds) /\ p_start (build start sds) = start.
